@@ -488,14 +488,20 @@ class Slice(GenVC):
         return z3.And(self.fill.t != NONE, i >= self.r)
 
     def run(self, tier, seed):
-        rs = []
-        for v in ("documented", "as_found"):
-            self.variant = v
-            self.__dict__.pop("_sweeps", None)
-            rs = VC.run(self, tier, seed)
-            if all(r.status == "discharged" for r in rs if ".inv_" in r.name):
-                break
-        return rs
+        # the candidate invariant for the documented behaviour first; the as-found candidate is tried only when the
+        # first one is REFUTED (not when the solver merely gave up), and is reported only if it is itself inductive
+        self.variant = "documented"
+        self.__dict__.pop("_sweeps", None)
+        first = VC.run(self, tier, seed)
+        if not any(r.status == "refuted" for r in first if ".inv_" in r.name):
+            return first
+        self.variant = "as_found"
+        self.__dict__.pop("_sweeps", None)
+        second = VC.run(self, tier, seed)
+        self.variant = "documented"
+        if all(r.status == "discharged" for r in second if ".inv_" in r.name):
+            return second
+        return first
 
     def fill_spec(self, i):
         """row i is one short of the longest row"""
@@ -641,6 +647,9 @@ class Batch(GenVC):
     """do_batch(value, linecount, fill_with), linecount >= 1.  M(i) stands for i * linecount (defined by
     recursion M(0) = 0, M(i+1) = M(i) + linecount, which keeps the VCs linear)."""
     target = "jinja2.filters:do_batch"
+
+    def closure(self, I):
+        return I.closure_of_function(sync_filter("batch"))
     inv_labels = ("bounds", "current_row_nonempty", "items_consumed", "full_row_sizes", "full_row_items", "current_row_items", "rows_frozen_and_fresh")
 
     def __init__(self):
@@ -671,7 +680,7 @@ class Batch(GenVC):
                 and tmp.id not in {r.id for r, _, _ in y.snaps},
             ]
 
-        I.loops[("do_batch", 0)] = LoopSpec(inv, havoc=gen_havoc("rows"), name="batch_loop")
+        I.loops[(sync_filter("batch").__qualname__, 0)] = LoopSpec(inv, havoc=gen_havoc("rows"), name="batch_loop")
 
     def setup(self, I, st):
         self.value = A.alist(st, "value", "obj")
@@ -747,7 +756,7 @@ class Batch(GenVC):
         items = list(range(n))
         arg = list(items)
         try:
-            got = [list(r) for r in list(F.do_batch(arg, c, fill))]  # rows are read after the generator is exhausted
+            got = [list(r) for r in list(sync_filter("batch")(arg, c, fill))]  # rows are read after the generator is exhausted
         except Exception as ex:
             return (True, f"range({n})|batch({c}, {fill!r}) raised {type(ex).__name__}: {ex}")
         want = spec_batch(items, c, fill)
@@ -1117,6 +1126,16 @@ def install_reversed(I):
     I.specs[("fn", id(list))] = lst
 
 
+def sync_filter(name):
+    """the sync function of filter `name`: the entry of FILTERS, or what an @async_variant wrapper wraps"""
+    f = F.FILTERS[name]
+    return f.__wrapped__ if getattr(f, "jinja_async_variant", False) else f
+
+
+def has_async_variant(name):
+    return getattr(F.FILTERS[name], "jinja_async_variant", False) is True
+
+
 def async_twin(wrapper):
     """the `async def` behind an @async_variant wrapper (a cell of the wrapper's closure)"""
     import inspect
@@ -1231,7 +1250,8 @@ def spec_parts(attribute):
     if attribute is None:
         return []
     if isinstance(attribute, str):
-        return [int(p) if p.isdigit() else p for p in attribute.split(".")]
+        import unicodedata
+        return [int(p) if p and all(unicodedata.decimal(c, None) is not None for c in p) else p for p in attribute.split(".")]
     return [attribute]
 
 
@@ -1262,7 +1282,8 @@ class AttrGetter(ThenCall, RelVC):
     postprocess(fold over the parts of: item := D(environment.getitem(item, part))),  D(v) = default if default is
     not None and v is Undefined else v"""
     fn = F.make_attrgetter
-    ATTRS = [None, 3, "a", "a.b", "a.0.b", "0", "a1.2b"]
+    # U+00B2 SUPERSCRIPT TWO is a digit character but no decimal (int() rejects it): a name; U+0663 is a decimal: 3
+    ATTRS = [None, 3, "a", "a.b", "a.0.b", "0", "a1.2b", "a.\u00b2", "\u0663"]
 
     def __init__(self, attribute, with_pp):
         self.attribute, self.with_pp = attribute, with_pp
@@ -1293,7 +1314,23 @@ class AttrGetter(ThenCall, RelVC):
 
     posts = [("lookup_chain", p_result), ("frame", RelVC.p_frame)]
 
+    def concretize(self, model, pre, out):
+        return {"fn": "attrparts", "attr": self.attribute}
+
+    def cases(self):
+        for a_ in self.ATTRS:
+            yield {"fn": "attrparts", "attr": a_}
+        yield {"fn": "", "generic": True}
+
+    def case_key(self, w):
+        return N.oracle_for(w).key(w) if w.get("fn") == "attrparts" else Native.case_key(self, w)
+
     def run_case(self, w):
+        if w.get("fn") == "attrparts":
+            return N.oracle_for(w).run(w)
+        return self.table_case(w)
+
+    def table_case(self, w):
         env = jinja2.Environment()
         obj = {"a": {"b": "AB", 0: {"b": "A0B"}}, 3: "three", "0": "zero-str", 0: "zero-int", "a1": {"2b": "X"}}
         for attr in self.ATTRS:
@@ -1364,13 +1401,13 @@ class AttrGetterChain(ThenCall, RelVC):
     posts = [("lookup_chain_over_all_parts", p_result), ("frame", RelVC.p_frame)]
 
     def run_case(self, w):
-        return AttrGetter.run_case(self, w)
+        return AttrGetter.table_case(self, w)
 
 
 class MultiAttrGetter(ThenCall, RelVC):
     """make_multi_attrgetter(environment, 'a,b.c', postprocess)(item) = [postprocess(lookup(item, 'a')), postprocess(lookup(item, 'b.c'))]"""
     fn = F.make_multi_attrgetter
-    ATTRS = [None, 3, "a", "a,b", "a.0,b", "a.b,c.1,d"]
+    ATTRS = [None, 3, "a", "a,b", "a.0,b", "a.b,c.1,d", "\u00b2,a"]
 
     def __init__(self, attribute, with_pp):
         self.attribute, self.with_pp = attribute, with_pp
@@ -1409,7 +1446,23 @@ class MultiAttrGetter(ThenCall, RelVC):
 
     posts = [("lookup_chains", p_result), ("frame", RelVC.p_frame)]
 
+    def concretize(self, model, pre, out):
+        return {"fn": "attrparts", "attr": self.attribute}
+
+    def cases(self):
+        for a_ in self.ATTRS:
+            yield {"fn": "attrparts", "attr": a_}
+        yield {"fn": "", "generic": True}
+
+    def case_key(self, w):
+        return N.oracle_for(w).key(w) if w.get("fn") == "attrparts" else Native.case_key(self, w)
+
     def run_case(self, w):
+        if w.get("fn") == "attrparts":
+            return N.oracle_for(w).run(w)
+        return self.table_case(w)
+
+    def table_case(self, w):
         env = jinja2.Environment()
         obj = {"a": {"b": "AB", 0: "A0"}, "b": "B", "c": {1: "C1"}, "d": "D", 3: "three"}
         for attr in self.ATTRS:
@@ -1430,7 +1483,7 @@ class MultiAttrGetter(ThenCall, RelVC):
 class Sort(RelVC):
     """do_sort = sorted(value, key=<attributes, lower-cased unless case sensitive>, reverse=reverse); permutation,
     order and stability are the dependency spec of `sorted`."""
-    fn = F.do_sort
+    fn = sync_filter("sort")
     fnname = "sort"
 
     def configure(self, I):
@@ -1694,7 +1747,7 @@ class MinMaxWrapper(RelVC):
     """do_min / do_max = _min_or_max(environment, value, min / max, case_sensitive, attribute)"""
 
     def __init__(self, which):
-        self.which, self.fn, self.fnname = which, {"min": F.do_min, "max": F.do_max}[which], which
+        self.which, self.fn, self.fnname = which, sync_filter(which), which
         super().__init__(f"C22.do_{which}")
 
     def configure(self, I):
@@ -1824,7 +1877,7 @@ class ListF(RelVC):
 class Reverse(RelVC):
     """do_reverse: a string -> the reversed string; a list -> an iterator over it the other way round; an iterator
     (not reversible) -> the reversed list of its items; not iterable -> FilterArgumentError"""
-    fn = F.do_reverse
+    fn = sync_filter("reverse")
     fnname = "reverse"
 
     def __init__(self, what):
@@ -2152,6 +2205,108 @@ class SelectGen(RelVC):
                 yield w
 
 
+AWAIT = z3.Function("awaited", Obj, Obj)      # the value `await auto_await(x)` produces: x itself unless x is awaitable
+TESTFN = z3.Function("environment.call_test", Obj, Obj)  # result of the named test on a subject (name, arguments fixed)
+
+
+class AsyncSelect(RelVC):
+    """async_select_or_reject with the REAL prepare_select_or_reject inlined (their composition is what decides): an
+    item is yielded iff  modfunc(await test(subject))  is true, where subject = item or its attribute args[0]
+    (lookup_attr) and test = bool, or environment.call_test(name, subject, ...) when a test name is given.  In an async
+    environment a test may be a coroutine function (the compiler awaits `x is test`), so its result is awaited before
+    modfunc / the truth value looks at it.  Yields = the selected items in order (rank = number selected so far)."""
+    fnname = "select"
+    fn = F.async_select_or_reject
+    inv_labels = ("yields_are_the_selected_items",)
+
+    def __init__(self, lookup_attr, nargs):
+        self.lookup_attr, self.nargs = lookup_attr, nargs
+        super().__init__(f"C22.async_select_or_reject[lookup_attr={lookup_attr},args={nargs}]")
+
+    def subject(self, x):
+        return self.key(x) if self.lookup_attr else x
+
+    def tested(self, x):
+        from pyvc.smt import bool2obj
+        off = 1 if self.lookup_attr else 0
+        return TESTFN(self.subject(x)) if self.nargs > off else bool2obj(TRUTHY(self.subject(x)))
+
+    def T(self, i):
+        return TRUTHY(APPLY(self.modfunc.t, AWAIT(self.tested(z3.Select(self.v, i)))))
+
+    def configure(self, I):
+        RelVC.configure(self, I)
+        install_yield_ghost(I, "items")
+        install_auto_havoc(I)
+        c = self
+        c.key = z3.Function("attribute_of", Obj, Obj)
+        install_getters(I, key_fn=c.key)
+        I.inline.add("jinja2.filters:prepare_select_or_reject")
+        I.specs["jinja2.async_utils:auto_await"] = lambda I_, st, args, kwargs, node: [(st, Sym(AWAIT(to_term(args[0], "obj")), "obj"))]
+        base = I.specs["method_obj"]
+
+        def method_obj(I_, st, args, kwargs, node):
+            if args[1] == "call_test" and len(args) >= 4:
+                v = Sym(TESTFN(to_term(args[3], "obj")), "obj")
+                st.trace.append(Event("call", "method:call_test", [args[0]] + list(args[2:]), kwargs, v, lineno=getattr(node, "lineno", None)))
+                return [(st, v)]
+            return base(I_, st, args, kwargs, node)
+
+        I.specs["method_obj"] = method_obj
+
+        def inv(ctx):
+            y, k = ctx.st.ghost["Y"], ctx.k
+            i = z3.Int(fresh_name("i"))
+            return [z3.And(y.n == c.rank(k), y.n >= 0,
+                           z3.ForAll([i], z3.Implies(z3.And(0 <= i, i < k, c.T(i)),
+                                                     z3.And(0 <= c.rank(i), c.rank(i) < y.n, z3.Select(y.items, c.rank(i)) == z3.Select(c.v, i)))))]
+
+        I.loops[(self.fn.__qualname__, 0)] = LoopSpec(inv, havoc=gen_havoc("items"), name="select_loop")
+
+    def setup(self, I, st):
+        from pyvc.smt import bool2obj
+        self.ctx, self.modfunc = sym("context", "obj"), sym("modfunc", "obj")
+        self.value = A.alist(st, "value", "obj")
+        hv = st.get(self.value)
+        self.v, self.n = hv.arr, hv.n
+        self.args = tuple(sym(f"a{i}", "obj") for i in range(self.nargs))
+        self.kwargs = st.alloc(HDict(items={}), initial=True)
+        # a bool is not awaitable
+        st.assume(AWAIT(bool2obj(z3.BoolVal(True))) == bool2obj(z3.BoolVal(True)), AWAIT(bool2obj(z3.BoolVal(False))) == bool2obj(z3.BoolVal(False)))
+        self.rank = z3.Function("rank_selected", I_, I_)
+        i = z3.Int("ri")
+        st.assume(self.rank(0) == 0, z3.ForAll([i], z3.Implies(z3.And(0 <= i, i < self.n), self.rank(i + 1) == self.rank(i) + z3.If(self.T(i), 1, 0))))
+        st.ghost["Y"] = Y.empty("items")
+        return [self.ctx, self.value, self.args, self.kwargs, self.modfunc, self.lookup_attr], {}
+
+    def p_yields(self, pre, out):
+        if out.raised:
+            return False
+        y = out.st.ghost["Y"]
+        i = z3.Int(fresh_name("i"))
+        return z3.And(y.n == self.rank(self.n),
+                      z3.ForAll([i], z3.Implies(z3.And(0 <= i, i < self.n, self.T(i)),
+                                                z3.And(0 <= self.rank(i), self.rank(i) < y.n, z3.Select(y.items, self.rank(i)) == z3.Select(self.v, i)))))
+
+    posts = [("yields_the_selected_items_in_order", p_yields), ("frame", RelVC.p_frame)]
+
+    def witness(self):
+        off = 1 if self.lookup_attr else 0
+        test = ["big"] + ([1] if self.nargs > off + 1 else []) if self.nargs > off else []
+        if self.lookup_attr:
+            return {"fn": "selectattr", "vals": [2, 0], "args": ["k"] + test, "kwargs": {}, "dicts": True, "mode": "async"}
+        return {"fn": "select", "vals": [2, 0], "args": test, "kwargs": {}, "mode": "async"}
+
+    def concretize(self, model, pre, out):
+        return self.witness()
+
+    def cases(self):
+        yield self.witness()
+        for w in N.ORACLES["mapselect"].cases(3):
+            if w["fn"] in ("select", "reject", "selectattr", "rejectattr") and w.get("mode") != "sync":
+                yield w
+
+
 class SelectWrapper(RelVC):
     """sync_do_select / reject / selectattr / rejectattr and their async twins:
     select_or_reject(context, value, args, kwargs, modfunc, lookup_attr) with modfunc = identity (select*) or `not`
@@ -2303,9 +2458,23 @@ class AsyncDelegate(RelVC):
         "list": (None, ["value"], 0),
     }
 
+    TABLE2 = {   # filters that get an async variant by the proposed repair (present only when FILTERS[name] is a variant)
+        "sort": ["environment", "value", "reverse", "case_sensitive", "attribute"],
+        "min": ["environment", "value", "case_sensitive", "attribute"],
+        "max": ["environment", "value", "case_sensitive", "attribute"],
+        "batch": ["value", "linecount", "fill_with"],
+        "reverse": ["value"],
+    }
+
     def __init__(self, which):
         self.which, self.fnname = which, which
-        self.fn = async_twin(getattr(F, "do_" + which))
+        if which in self.TABLE2:
+            params = self.TABLE2[which]
+            self.TABLE = dict(self.TABLE)
+            self.TABLE[which] = (sync_filter(which).__qualname__, params, params.index("value"))
+            self.fn = async_twin(F.FILTERS[which])
+        else:
+            self.fn = async_twin(getattr(F, "do_" + which))
         super().__init__(f"C22.async.do_{which}")
 
     def configure(self, I):
@@ -2346,8 +2515,8 @@ class Dispatch(RelVC):
 
     def __init__(self, which):
         self.which, self.fnname = which, which
-        self.fn = getattr(F, "do_" + which)
-        self.sync = getattr(F, "sync_do_" + which)
+        self.fn = F.FILTERS[which]
+        self.sync = self.fn.__wrapped__
         self.twin = async_twin(self.fn)
         super().__init__(f"C22.async_variant.dispatch[{which}]")
 
@@ -2397,8 +2566,9 @@ class Dispatch(RelVC):
 
 
 class AsyncSum(RelVC):
-    """async do_sum: start + f(v0) + f(v1) + ... (left fold, = sum(map(f, iterable), start)), f = identity or the
-    attribute getter; the `start` argument (like every argument) is not modified in place."""
+    """async do_sum returns builtins.sum of the collected items / attribute values and `start` (the Python definition of
+    the filter, and what the sync filter returns); no argument is modified in place.  If the twin has a loop of its own,
+    the loop invariants (partial `+` fold, no in-place update of `start`) are proved as well."""
     fnname = "sum"
     inv_labels = ("partial_sum", "no_inplace_update_of_an_argument")
 
@@ -2416,6 +2586,9 @@ class AsyncSum(RelVC):
         c = self
         c.key = z3.Function("attr_of", Obj, Obj)
         install_getters(I, key_fn=c.key)
+        repo_abstract(I, "jinja2.filters:sync_do_sum")
+        lib(I, sum, "sum")
+        lib(I, map, "map")
 
         def iadd(I_, st, args, kwargs, node):
             cur, rhs = args
@@ -2461,27 +2634,44 @@ class AsyncSum(RelVC):
         return [self.env, self.iterable, self.attribute, self.start], {}
 
     def p_result(self, pre, out):
+        """The sum filter is Python's sum(): the async twin returns what builtins.sum returns for the collected items (or
+        their attribute values) and `start` - by delegating to the sync filter (own contract: sum(iterable, start) /
+        sum(map(getter, iterable), start)) or by calling sum itself.  A hand-written `+` fold is not sum(): sum() uses
+        compensated float summation (3.12) and refuses str start values."""
         if out.raised:
             return False
-        g = A.calls(out, "make_attrgetter")
-        if self.with_attr:
-            if len(g) != 1 or getter_ok(g[0].result, self.env, self.attribute, postprocess=None) is not True:
-                return False
-        elif g:
+        tl = [e for e in A.calls(out, "auto_to_list") if same(list(e.args), [self.iterable])]
+        if len(tl) != 1:
             return False
-        return to_term(out.value, "obj") == self.fold(self.n)
+        items = tl[0].result
+        d = one(A.calls(out, "sync_do_sum"))
+        if d is not None:
+            return (not d.kwargs and same(list(d.args), [self.env, items, self.attribute, self.start]) and out.value is d.result
+                    and self.only_calls(out, {"auto_to_list", "sync_do_sum"}))
+        e = one(A.calls(out, "sum"))
+        if e is None or e.kwargs or len(e.args) != 2 or not same(e.args[1], self.start) or out.value is not e.result:
+            return False
+        if not self.with_attr:
+            return same(e.args[0], items) and not A.calls(out, "map")
+        m, g = one(A.calls(out, "map")), one(A.calls(out, "make_attrgetter"))
+        return (m is not None and g is not None and e.args[0] is m.result and len(m.args) == 2 and m.args[0] is g.result and same(m.args[1], items)
+                and getter_ok(g.result, self.env, self.attribute, postprocess=None) is True)
 
-    posts = [("left_fold_from_start", p_result), ("frame", RelVC.p_frame)]
+    posts = [("same_as_builtin_sum_of_the_collected_items", p_result), ("frame", RelVC.p_frame)]
 
     def concretize(self, model, pre, out):
         n = max(1, min(3, model_value(model, self.n)))
         mutable = model_value(model, HAS_IADD(self.start.t)) is True
         if mutable:
             return {"fn": "sum", "vals": [[1]] * n, "start": [9], "shape": "lists", "mode": "async"}
-        return {"fn": "sum", "vals": [1] * n, "start": 5, "shape": "attr" if self.with_attr else "plain", "mode": "async"}
+        return {"fn": "sum", "vals": [0.1] * 10, "start": 0, "shape": "attr" if self.with_attr else "plain", "mode": "async"}
 
     def want_case(self, w):
         return w.get("mode") != "sync" and (w["shape"] == "lists" or (w["shape"] == "attr") == self.with_attr)
+
+    def cases(self):
+        yield {"fn": "sum", "vals": [0.1] * 10, "start": 0, "shape": "attr" if self.with_attr else "plain", "mode": "async"}
+        yield from RelVC.cases(self)
 
 
 # ======================================================================================
@@ -2497,7 +2687,9 @@ def table_registry(task, tier, seed):
             "reverse": F.do_reverse, "map": F.do_map, "select": F.do_select, "reject": F.do_reject, "selectattr": F.do_selectattr,
             "rejectattr": F.do_rejectattr, "length": len, "count": len}
     for name, fn in sorted(want.items()):
-        ok = F.FILTERS.get(name) is fn
+        got = F.FILTERS.get(name)
+        # the documented function itself, or an @async_variant wrapper of it
+        ok = got is fn or (getattr(got, "jinja_async_variant", False) is True and getattr(got, "__wrapped__", None) is fn)
         rs.append(Res(f"C22.FILTERS[{name}]", "discharged" if ok else "refuted", "table", 0, "" if ok else f"FILTERS[{name!r}] is {F.FILTERS.get(name)!r}", "table",
                       {"fn": "table", "name": name}))
     twins = {"slice": F.sync_do_slice, "unique": F.sync_do_unique, "groupby": F.sync_do_groupby, "sum": F.sync_do_sum, "first": F.sync_do_first,
@@ -2513,13 +2705,37 @@ def table_registry(task, tier, seed):
             ok = False
         rs.append(Res(f"C22.async_variant[{name}]", "discharged" if ok else "refuted", "table", 0, "" if ok else f"do_{name} is not async_variant(sync_do_{name})", "table",
                       {"fn": "table", "name": name}))
+    # every filter that iterates its input accepts what the async environment produces (select / map / ... return async
+    # generators there): it is registered as an @async_variant (do_last is documented as not safe in async mode)
+    for name in ("sort", "min", "max", "batch", "reverse"):
+        ok = has_async_variant(name)
+        wit = {"sort": {"fn": "sort", "letters": ["b", "a"], "cs": False, "reverse": False, "shape": "str", "mode": "async-gen"},
+               "min": {"fn": "min", "letters": ["b", "a"], "cs": False, "shape": "str", "mode": "async-gen"},
+               "max": {"fn": "max", "letters": ["b", "a"], "cs": False, "shape": "str", "mode": "async-gen"},
+               "batch": {"fn": "batch", "n": 3, "linecount": 2, "fill": None, "mode": "async-gen"},
+               "reverse": {"fn": "reverse", "letters": ["a", "b"], "as": "list", "mode": "async-gen"}}[name]
+        rs.append(Res(f"C22.async_variant[{name}]", "discharged" if ok else "refuted", "table", 0,
+                      "" if ok else f"FILTERS[{name!r}] has no async variant: an async iterable (e.g. the result of select / map in an async environment) is rejected", "table", wit))
     return rs
 
 
 def replay_table(w):
+    if w.get("fn") in N.FN2ORACLE:
+        return N.oracle_for(w).run(w)
     rs = table_registry(None, "quick", 0)
     bad = [r for r in rs if r.status != "discharged" and (r.witness or {}).get("name") == w.get("name")]
     return (bool(bad), bad[0].detail if bad else "registry agrees")
+
+
+class Tables(Native, FnTask):
+    def __init__(self):
+        FnTask.__init__(self, "C22", "C22.tables", table_registry, "table", replay_table)
+
+    def case_key(self, w):
+        return N.oracle_for(w).key(w) if w.get("fn") in N.FN2ORACLE else Native.case_key(self, w)
+
+    def replay(self, w):
+        return replay_table(w)
 
 
 class Bounded(Native, FnTask):
@@ -2575,14 +2791,17 @@ TASKS = (
     + [GroupBy(g, a) for a in (False, True) for g in (0, 1, 2, 3)]
     + [MinOrMax(), MinMaxWrapper("min"), MinMaxWrapper("max"), Sum(), First(False), First(True), Last(), ListF()]
     + [Reverse(w) for w in ("str:", "str:a", "str:abC", "list", "generator", "opaque")]
-    + [JoinPlain()] + [JoinAuto(n) for n in (0, 1, 2)] + [MapGen(False), MapGen(True), SelectGen(False), SelectGen(True)]
+    + [JoinPlain()] + [JoinAuto(n) for n in (0, 1, 2)] + [MapGen(False), MapGen(True), SelectGen(False)]
+    + [AsyncSelect(la, n) for la, n in ((False, 0), (False, 1), (False, 2), (True, 1), (True, 2), (True, 3))]
     + [SelectWrapper(w, a) for w in ("select", "reject", "selectattr", "rejectattr") for a in (False, True)]
     + [PrepareMap(s) for s in PrepareMap.SHAPES]
     + [PrepareSelect(la, n) for la in (False, True) for n in (0, 1, 2, 3)]
     + [AsyncDelegate(w) for w in ("slice", "unique", "join", "list")]
+    + [AsyncDelegate(w) for w in ("sort", "min", "max", "batch", "reverse") if has_async_variant(w)]
     + [AsyncSum(False), AsyncSum(True)]
-    + [Dispatch(w) for w in ("slice", "unique", "groupby", "sum", "first", "join", "list", "map", "select", "reject", "selectattr", "rejectattr")]
-    + [FnTask("C22", "C22.tables", table_registry, "table", replay_table)]
+    + [Dispatch(w) for w in ("slice", "unique", "groupby", "sum", "first", "join", "list", "map", "select", "reject", "selectattr", "rejectattr")
+                         + tuple(w for w in ("sort", "min", "max", "batch", "reverse") if has_async_variant(w))]
+    + [Tables()]
     + [Bounded(o) for o in N.ORACLES]
 )
 
@@ -2594,8 +2813,9 @@ META = {
         "segments covering the input, at most one extra item per row and it is the fill value, fill exactly on the short "
         "rows), do_batch (ceil(n/c) rows, full rows in order, last row and its padding), sync_do_unique (the yields are "
         "the first occurrences in order; key = attribute getter, lower-cased iff not case sensitive), sync_do_map / do_map, "
-        "select_or_reject / async_select_or_reject (yields = the selected items in order), async do_sum (left fold from "
-        "start; no in-place update of `start`), _min_or_max, sync_do_first / do_first, do_last, sync_do_list, do_reverse, "
+        "select_or_reject / async_select_or_reject (yields = the selected items in order), async do_sum (= builtins.sum of the collected "
+        "items and start, by delegation or a direct call; no in-place update of `start`), async_select_or_reject with the real "
+        "prepare_select_or_reject inlined (the test result is awaited before modfunc), _min_or_max, sync_do_first / do_first, do_last, sync_do_list, do_reverse, "
         "make_attrgetter over any list of parts. RELATIVE proofs (the library function is a dependency spec, the call made "
         "and its arguments are checked): do_sort, do_dictsort (key function probed on a generic pair), sync_do_sum, "
         "sync_do_join without autoescape, do_min/do_max, the eight select/reject wrappers (modfunc probed), prepare_map, "
@@ -2613,7 +2833,7 @@ META = {
     "assumptions": [
         "A1 integers are mathematical; slices >= 1, linecount >= 1 (the documented domain of slice / batch)",
         "A-EQ keys are hashable and `==`/hash on them coincide with identity of abstract atoms",
-        "A7 await is transparent; async iteration over auto_aiter(x) yields the items of x in order; auto_to_list(x) is a new list of them",
+        "A7 await is transparent except for auto_await in async_select_or_reject, where the awaited value is a function of the awaitable; async iteration over auto_aiter(x) yields the items of x in order; auto_to_list(x) is a new list of them",
         "inputs are finite iterables modelled as lists (iteration protocol of generators assumed); environment.getitem is a function of (item, part)",
         "for a type with in-place addition, a + b is a new object (never the `start` argument); `a += b` has the value of a + b",
         "generator bodies have no effects that depend on laziness except the row aliasing that `rows_frozen` checks",
